@@ -175,7 +175,9 @@ class Check:
             level = "other"   # downgrade for this run (DESIGN 2.6)
         cov = dict(
             evaluations=max(self.evaluations, n_obl),
-            distinct_nontrivial=max(len(self.nontrivial), len({o["id"] for o in self.obligs if o["status"] in ("proved", "passed")})),
+            # measured: distinct non-trivial cases counted by the check (count()); checks that only record obligations fall
+            # back to the number of distinct discharged obligation ids
+            distinct_nontrivial=len(self.nontrivial) if self.evaluations else len({o["id"] for o in self.obligs if o["status"] in ("proved", "passed")}),
             rule=self.rule or "one case per obligation id; non-trivial = obligation generated from current source and decided",
             samples=self.samples[:12] or [o for o in self.obligs[:6]],
             obligations=n_obl, discharged=n_dis,
